@@ -122,3 +122,8 @@ def cases(tier, seed, ctx=None):
     for cfg in (4, 5):
         for rq in (b"GET / HTTP/1.1\r\nHost: h\r\n\r\n", b""):
             yield ("tls", [5, cfg, rq], "tls-unwelcome-client-released")
+    # dozens of connections in flight on one server at the same time (unfinished request heads), twice in a row; afterwards every
+    # descriptor and object is gone
+    for kind in (0, 2):
+        r = LREQ[kind]
+        yield ("life", [kind, [[r, len(r) // 2, 8, 40], [r, len(r) // 2, 8, 40], [r, len(r), 2]], 0], "loopback-many-in-flight")
